@@ -527,6 +527,18 @@ pub fn run_parent(info: &PropInfo, tier: Tier, seed: u64, workers: u32) -> Paren
             exit = 2;
         }
     }
+    // … and preconditions that a correct issuer always meets (its output decodes; the digests it
+    // embeds are the SHA-256 of the disclosures it hands out at the places the strategy designates):
+    // the oracle of this property is built on them, so a single failure means "cannot decide here",
+    // never "held" — the property that owns the precondition (C05) reports the violation itself
+    let strict: u64 = merged.labels.iter().filter(|(k, _)| k.starts_with("void:hidden_set_differs") || k.starts_with("void:issued_undecodable")).map(|(_, v)| *v).sum();
+    if strict > 0 && exit == 0 {
+        println!(
+            "INCONCLUSIVE property={} in {} of {} cases the issued SD-JWT did not decode to the hidden set the strategy designates (C05's subject); this check's oracle presupposes it, so it decides nothing for this tree",
+            info.id, strict, merged.evaluations
+        );
+        exit = 2;
+    }
     if merged.samples.is_empty() {
         merged.samples.push(json!("no non-trivial case was produced in this run"));
     }
